@@ -362,10 +362,20 @@ def check(ctx):
                    "the type initialiser does not receive self.encode(data): the number is not TBCD-encoded", key="ctor")
     a, b = sibs
     def table(fn_):
+        """value returned per type of the argument (int / str / bytes / anything else), decided on terms"""
         pn = fn_.args.args[1].arg if len(fn_.args.args) > 1 else "data"
-        rows = set()
-        for p_ in sym.Interp().run(strip_doc(fn_.body), sym.PathState({pn: sym.S("DATA")}, [], [])):
-            rows.add((tuple(sorted((sym.show(c), tv) for c, tv in p_.conds)), p_.term, sym.show(p_.value) if p_.value is not None else None))
+        DT = sym.S("DATA")
+        rows = {}
+        for kind in ("int", "str", "bytes", "other"):
+            def hook(t, kind=kind):
+                if isinstance(t, tuple) and t and t[0] == "call" and t[1] == ("name", "isinstance") and t[2][:1] == (DT,):
+                    names = sym.show(t[2][1]).replace("[", "").replace("]", "").replace(" ", "").split(",")
+                    return kind in names
+                return None
+            vals = set()
+            for p_ in sym.Interp(hook=hook).run(strip_doc(fn_.body), sym.PathState({pn: DT}, [], [])):
+                vals.add((p_.term, sym.show(p_.value) if p_.value is not None else None))
+            rows[kind] = sorted(vals, key=str)
         return rows
     same = table(a[1]) == table(b[1])
     ctx.decide(same, "R-SIB/encode", "MsisdnAVP.encode~StnSrAVP.encode", a[0].where(a[1]),
